@@ -208,7 +208,7 @@ func c10Run(plan *Plan, w World, ops []Op, st *Stats, primary bool) (*Violation,
 	var t0 time.Time
 	var prevStore map[string]string
 	pendingIsWait := false
-	hk := &execHooks{bubble: true}
+	hk := &execHooks{bubble: true, callsClause: "C10.calls"}
 	hk.beforeOp = func(i int, op *Op, h *Host) { t0 = time.Now() }
 	hk.afterOp = func(i int, op *Op, got *Resp, h *Host, tr *Trace) *Violation {
 		store := tr.Stores[len(tr.Stores)-1]
